@@ -42,6 +42,8 @@ pub mod wm;
 pub mod split;
 pub mod rank;
 pub mod reg;
+pub mod hl;
+pub mod tok;
 pub mod norm;
 pub mod tmo;
 
@@ -61,6 +63,8 @@ pub fn registry() -> Vec<(&'static str, fn())> {
     v.extend_from_slice(split::ALL);
     v.extend_from_slice(rank::ALL);
     v.extend_from_slice(reg::ALL);
+    v.extend_from_slice(hl::ALL);
+    v.extend_from_slice(tok::ALL);
     v.extend_from_slice(norm::ALL);
     v.extend_from_slice(tmo::ALL);
     v
